@@ -2,6 +2,7 @@ package lucene
 
 import (
 	"fmt"
+	"math"
 	"reflect"
 	"strconv"
 	"strings"
@@ -238,8 +239,9 @@ func parseLiteral(token lex.Token) (e any, err error) {
 	}
 
 	// attempt to parse it as a float
+	// (NaN and the infinities are words, not numbers: they have no SQL or JSON number form)
 	fval, err := strconv.ParseFloat(token.Val, 64)
-	if err == nil {
+	if err == nil && !math.IsNaN(fval) && !math.IsInf(fval, 0) {
 		return expr.Lit(fval), nil
 	}
 
